@@ -123,6 +123,10 @@ class Action(BaseForm):
 
         return super().__new__(cls)
 
+    def __reduce__(self):
+        """Rebuild from the operands (pickle, copy): __new__ needs them."""
+        return (Action, (self._left, self._right))
+
     def __init__(self, left, right):
         """Initialise."""
         if hasattr(self, "_left"):
